@@ -25,6 +25,7 @@ var c10enzymes = []c10enz{
 	{"BbsI", "GAAGAC", 2, 4, true},
 	{"BtgZI", "GCGATG", 10, 4, true},
 	{"SapI-like", "GCTCTTC", 1, 3, false},
+	{"BbvI-like", "GCAGC", 8, 4, false}, // odd length, outer bases mirror each other, not a palindrome
 	{"BspMI-like", "ACCTGC", 4, 4, false},
 	{"FokI-like", "GGATG", 9, 4, false},
 }
@@ -198,7 +199,7 @@ func c10units(tier string) []mc.Unit {
 	if thorough {
 		gapVals = []int{0, 1, 7, 23}
 	}
-	enz := c10enzymes[:4]
+	enz := c10enzymes[:5]
 	if thorough {
 		enz = c10enzymes
 	}
